@@ -19,3 +19,4 @@ CFG = {
 CFG['level_text'] += " The forged-log family has a tenth shape: the signature block of the client's stored head under the forged tree text."
 CFG['level_text'] += ' In cold mode half of the cases start from the stored head of the still empty log.'
 CFG['level_text'] += ' Two honest databases whose names differ in a trailing or doubled slash share one cache: every lookup must succeed.'
+CFG['level_text'] += ' In the forged-log family the second request of the refused client is answered from the same forged log with the very same head bytes (a refusal must not be remembered as a verification).'
